@@ -126,6 +126,9 @@ func c14BaseFile(r *Rand, d *Decl) []iniLine {
 						// a value that spans several chunks of the line reader, with a recognisable tail
 						v = strconv.Quote(strings.Repeat("v", r.Range(4080, 4110)) + "-tail" + fmt.Sprint(r.Intn(1000)))
 					}
+					if r.Chance(1, 250) {
+						v = strconv.Quote(strings.Repeat("V", 1<<20+r.Intn(5)-2) + "-tail" + fmt.Sprint(r.Intn(1000)))
+					}
 				default:
 					v = GenScalarTextSimple(r, o)
 					if strings.HasPrefix(v, "\x00") {
@@ -152,6 +155,10 @@ func c14Noise(r *Rand) string {
 	case 4:
 		return "\t ; indented comment"
 	case 5:
+		if r.Chance(1, 40) {
+			// a line of a mebibyte (a pasted certificate chain, a generated file): no line is too long to be read
+			return ";" + strings.Repeat("m", 1<<20+r.Intn(5)-2)
+		}
 		return "; " + strings.Repeat("long comment ", r.Range(315, 5400)) // 4 kB .. 70 kB
 	case 6:
 		return ";" + strings.Repeat("x", r.Range(4090, 4100))
@@ -196,6 +203,17 @@ func joinLines(r *Rand, lines []string, crlf int) string {
 
 func c14Parse(d *Decl, text string, ignore bool) (map[string]string, []CallEntry, error, *PanicInfo) {
 	b := d.Build()
+	var ip *flags.IniParser
+	if c14LateOptions {
+		// the IniParser is created before the program has settled its parser options (e.g. a lenient first pass
+		// over the command line that looks for --config): what counts is the setting when the file is read
+		b.P.Options |= flags.IgnoreUnknown
+		if ignore {
+			b.P.Options &^= flags.IgnoreUnknown
+		}
+		ip = flags.NewIniParser(b.P)
+		b.P.Options &^= flags.IgnoreUnknown
+	}
 	if ignore {
 		b.P.Options |= flags.IgnoreUnknown
 	}
@@ -206,9 +224,15 @@ func c14Parse(d *Decl, text string, ignore bool) (map[string]string, []CallEntry
 		}
 	}
 	var err error
-	pi := safely(func() { err = flags.NewIniParser(b.P).Parse(strings.NewReader(text)) })
+	if ip == nil {
+		ip = flags.NewIniParser(b.P)
+	}
+	pi := safely(func() { err = ip.Parse(strings.NewReader(text)) })
 	return d.Snapshot(), b.Log.E, err, pi
 }
+
+// c14LateOptions: the IniParser of the current case is created while IgnoreUnknown has the opposite setting.
+var c14LateOptions bool
 
 // c14WithHandler: the parsers of the current case carry an UnknownOptionHandler (C14 cases run one at a time).
 var c14WithHandler bool
@@ -217,6 +241,7 @@ func c14Run(c *Ctx) {
 	r := c.R
 	mode := c.K % 4
 	c14WithHandler = (c.K/4)%3 == 1
+	c14LateOptions = (c.K/12)%2 == 1
 	d := GenDecl(c.Sub("d"), c14Cfg())
 	if inHistTail(c, 40000, 1600000) {
 		// one IniParser used for two reads while the program changes the model in between
